@@ -174,7 +174,7 @@ def _ism_case(n, tag, axis, shape):
     syms = names("a", *shape) + names("b", *shape)
 
     @case("C20", "is_multiple.%s" % tag, syms, mode="field", functions=["geometer.utils.math.is_multiple"], max_paths=2000,
-          explore_time=600, also=("C03",))
+          explore_time=600, also=("C03",), share=True)
     def _(ctx):
         um = _m()
         a, b = ctx.arr("a", *shape), ctx.arr("b", *shape)
